@@ -27,6 +27,8 @@ func main() {
 		os.Exit(cmdExplain(os.Args[2:]))
 	case "selftest":
 		os.Exit(cmdSelftest(os.Args[2:]))
+	case "multicheck":
+		os.Exit(cmdMulti(os.Args[2:]))
 	case "funcs":
 		p := mustLoad("/repo")
 		for _, f := range p.Funcs {
@@ -166,7 +168,7 @@ func cmdCheck(args []string) (code int) {
 		rs := runCorpus(*repo, *verif, *prop, 8)
 		var problems []corpusResult
 		for _, r := range rs {
-			if r.Outcome == "MISSED" || r.Outcome == "FALSE-ALARM" {
+			if r.Outcome == "MISSED" || r.Outcome == "FALSE-ALARM" || r.Outcome == "LOST-FINDING" {
 				problems = append(problems, r)
 				fmt.Printf("checker-validation: %s %s %s %s\n", r.Outcome, r.Entry, r.Prop, r.Detail)
 			}
@@ -175,6 +177,51 @@ func cmdCheck(args []string) (code int) {
 			"note": "must-fire mutants / seeded adversarial changes and must-stay-silent refactorings, each analysed in a scratch copy of /repo"})
 	}
 	return c.finish(*verif, def.Info, start, !*noEv)
+}
+
+// cmdMulti analyses one tree for several properties in one process (used by the corpus runner): the tree is
+// loaded once; each property's report is printed after a "=== <id>" line; nothing is written.
+func cmdMulti(args []string) int {
+	fs := flag.NewFlagSet("multicheck", flag.ExitOnError)
+	repo := fs.String("repo", "/repo", "")
+	verif := fs.String("verif", "/verif", "")
+	props := fs.String("props", "", "comma separated property ids")
+	fs.Parse(args)
+	witnessDir = filepath.Join(*verif, "witness")
+	p, err := loadProgram(*repo, "")
+	code := 0
+	if err != nil {
+		fmt.Printf("LOAD-FAILED: %s\n", firstLine(err.Error()))
+	}
+	for _, prop := range strings.Split(*props, ",") {
+		fmt.Printf("=== %s\n", prop)
+		def := registry[prop]
+		if def == nil {
+			fmt.Printf("VIOLATION property=%s replay=none\n  rule %s.checker: unknown property\n", prop, prop)
+			code = 1
+			continue
+		}
+		if err != nil {
+			fmt.Printf("VIOLATION property=%s replay=none\n  rule %s.checker: checker could not analyse the tree: %s\n", prop, prop, firstLine(err.Error()))
+			code = 1
+			continue
+		}
+		func() {
+			defer func() {
+				if r := recover(); r != nil {
+					fmt.Printf("VIOLATION property=%s replay=none\n  rule %s.checker: checker panic: %v\n", prop, prop, r)
+					code = 1
+				}
+			}()
+			c := NewCtx(p, prop, "quick")
+			c.NoReplay = true
+			def.Rules(c)
+			if c.finish(*verif, def.Info, time.Now(), false) != 0 {
+				code = 1
+			}
+		}()
+	}
+	return code
 }
 
 // cmdExplain re-runs the property named in a replay file against the current tree and prints the
